@@ -271,7 +271,7 @@ ghost_reset(void)
 {
     memset(&r, 0, sizeof(r));
     r.token = nd_int();
-    VASSUME(r.token >= 3);
+    VASSUME(r.token >= 0); /* descriptor 0 included */
     r.o = nd_ulong();
     r.create_fails = nd_bool();
     r.write_fails = nd_bool();
